@@ -109,7 +109,7 @@ fn replay_model(w: &Value) -> Option<Result<Vec<String>, String>> {
         let slots = num(w, "slots").unwrap_or(1) as usize;
         return Some(crate::live::replay_live(slots, &names).map(|mut lines| {
             if let Some(pr) = w.get("probe").and_then(|x| x.as_array()) {
-                lines.push(format!("(then: reset_last_label, provision one 16-byte buffer, decap of the probe packets {:?})", pr));
+                lines.push(format!("(then: reset_last_label, provision one 4-byte buffer, decap of the probe packets {:?})", pr));
             }
             lines
         }));
@@ -145,8 +145,8 @@ fn replay_model(w: &Value) -> Option<Result<Vec<String>, String>> {
                 };
                 let mut d = st.rx.build(DefaultCrc {}, mgr.clone());
                 d.reset_last_label();
-                let pv = d.provision_storage(vec![0u8; 16].into_boxed_slice());
-                lines.push(format!("reset_last_label(); provision_storage(16 bytes) -> {:?}", pv.map_err(|e| mem_err_kind(&e).0)));
+                let pv = d.provision_storage(vec![0u8; 4].into_boxed_slice());
+                lines.push(format!("reset_last_label(); provision_storage(4 bytes) -> {:?}", pv.map_err(|e| mem_err_kind(&e).0)));
                 for p in pkts {
                     let o = do_decap(&mut d, &p);
                     lines.push(format!("decap({}) -> {}", hex(&p), o.brief()));
